@@ -37,7 +37,7 @@ class Group:
     def __init__(self, name, unity, entry, functions, tier="quick", defines=(), c_sources=(),
                  loops=None, unwind=None, unwindset=(), checks=("--bounds-check", "--pointer-check"),
                  timeout=300, bounded=None, includes=(), extra_cbmc=(), t9=None, mem_gb=10,
-                 loop_functions=(), replay=None, nondet_static=False, note=None, expected_loops=0, subst=None):
+                 loop_functions=(), replay=None, nondet_static=False, note=None, expected_loops=0, subst=None, cpp_sources=()):
         self.name = name              # e.g. C05/parse_dc16
         self.unity = unity            # path of the harness unity TU relative to /verif/contracts
         self.entry = entry            # extern "C" harness function
@@ -57,6 +57,7 @@ class Group:
         self.replay = replay          # optional callable(group, failure, workdir) -> replay info
         self.note = note
         self.subst = dict(subst or {})
+        self.cpp_sources = list(cpp_sources)   # real /repo translation units compiled separately (relative to the tree)
         self.expected_loops = expected_loops  # number of loops that must show invariant base+step obligations
 
 
@@ -119,6 +120,16 @@ def run_group(g, scratch, tree):
         if rc != 0:
             res["status"] = "undecided"
             res["reason"] = "goto-cc (C sidecar) failed: " + (se + so)[-600:]
+            res["wall_s"] = time.time() - t0
+            return res
+        objs.append(o)
+    for i, c in enumerate(g.cpp_sources):
+        o = os.path.join(wd, "x%d.gb" % i)
+        cmd = ["goto-cc", "-x", "c++"] + defs + inc + ["-c", os.path.join(src, c), "-o", o]
+        rc, so, se, _ = sh(cmd, timeout=600)
+        if rc != 0:
+            res["status"] = "undecided"
+            res["reason"] = "goto-cc (%s) failed: %s" % (c, (se + so)[-600:])
             res["wall_s"] = time.time() - t0
             return res
         objs.append(o)
